@@ -158,8 +158,16 @@ tokFilled:
 	if tok.typ == TokenBackslash {
 		// eat up the backslash
 		_, _ = lexer.GetNextToken()
+		// still inside the open list: wait for the tail and for the
+		// closing paren if the input has run dry.
+		if _, err = parser.ParserPeekNextToken(0); err != nil {
+			return SexpNull, err
+		}
 		expr, err = parser.ParseExpression(depth + 1)
 		if err != nil {
+			return SexpNull, err
+		}
+		if _, err = parser.ParserPeekNextToken(0); err != nil {
 			return SexpNull, err
 		}
 
